@@ -235,7 +235,7 @@ def run_labels(ck):
 
 
 # ------------------------------------------------------------------------------------------ histories
-H_LISTS = ["M_hist", "V_new", "K_retry", "K_type"]
+H_LISTS = ["M_hist", "V_new", "K_retry"]
 TNAME = {0: "TBoth", 1: "TLog", 2: "TMetric"}
 
 
@@ -335,7 +335,7 @@ def run_hist(ck):
                   not res["V_new"], "case ids: %s" % res["V_new"][:10])
     if res["V_new"]:
         c = min((byid[i] for i in res["V_new"]), key=size)
-        ck.violation({"property": "C04", "part": "hist", "kind": "acknowledged sample without series row (no failed series insert before it, stable sample types)",
+        ck.violation({"property": "C04", "part": "hist", "kind": "acknowledged sample without series row of its day and type (not explained by a push after a failed series insert)",
                       "case": c, "readable": show_hist(c), "explanation": "hv_new (model/SeriesIndex.v) on the observed inserts",
                       "replay": "seriesid --mode hist --cases <file with this case>"})
     elif res["M_hist"]:
@@ -343,8 +343,7 @@ def run_hist(ck):
         ck.violation({"property": "C04", "part": "hist", "kind": "model/implementation disagree; spec oracle still accepts",
                       "case": c, "readable": show_hist(c)}, no_input=True)
     kf = ck.known_findings()
-    for key, fid_, what in (("K_retry", "retry-after-failed-series-insert", "push after a failed series insert (no cache reset in between) is acknowledged without series row"),
-                            ("K_type", "series-type-row-missing", "label set seen with a new sample type gets no series row of that type")):
+    for key, fid_, what in (("K_retry", "retry-after-failed-series-insert", "push after a failed series insert (no cache reset in between) is acknowledged without series row"),):
         if not res[key]:
             continue
         c = min((byid[i] for i in res[key]), key=size)
@@ -364,7 +363,7 @@ def run_hist(ck):
     ck.coverage["rule"] += ("hist: histories of 1..8 steps (push of 1..3 streams over 4 label sets and 2 days incl. instants at midnight, client retry of the previous body, cache reset) "
                             "with scripted outcomes of the series and the samples insert, run through the in-process writer router with one shared cache; non-trivial = at least 2 pushes, distinct by content. ")
     ck.extra["hist_input_classes"] = hist
-    ck.extra["hist_known"] = {"retry": len(res["K_retry"]), "type": len(res["K_type"])}
+    ck.extra["hist_known"] = {"retry": len(res["K_retry"])}
     ck.add_samples([show_hist(c) for c in cases if len(c["steps"]) >= 2][:1])
 
 
@@ -447,7 +446,7 @@ def run(ck):
         "C04: city.CH64 on label strings is an oracle (per-case table from the exported function); Hash128to64 and CH64 over the 24 accumulator bytes are transcribed and checked by the correspondence; FingerPrintType = CityHash (default) only",
         "C04: strconv.IsPrint on runes > 0xFF is an oracle table; ClickHouse's JSON functions are assumed to accept exactly RFC 8259 (LabelJson.v) on these documents",
         "C04: fingerprint injectivity is conditional on collision-freeness hypotheses that are tested, not proved",
-        "C04 histories: the (day, fingerprint) cache key CH64(day || fp) is modelled as the pair itself (no collisions); fastcache has no false positives; a cache reset is modelled by installing an empty cache (the ticker's Reset is unreachable); requests stay below the 1 MiB mid-request flush; single node (the cache is disabled in cluster mode)",
+        "C04 histories: the (day, fingerprint, type) cache key CH64(day || fp || type) is modelled as the triple itself (no collisions); fastcache has no false positives; a cache reset is modelled by installing an empty cache (the ticker's Reset is unreachable); requests stay below the 1 MiB mid-request flush; single node (the cache is disabled in cluster mode)",
         "C04 dates: ch-go's ToDate and Go's time.Truncate are transcribed (checked by the correspondence over 32 zones); the reader's own zone (upper date bound) belongs to C13",
     ]
     ck.coq_props()
